@@ -251,7 +251,7 @@ SpaceX ==
               /\ (s.grid = "free" => ~s.lT)}
     [] Family = "C14" ->
          {s \in [rhs : {"R2", "R3", "R6"}, meth : {"MS", "SS", "DC"}, intg : {"rk", "radau2"}, N : 1..2, M : 1..2, grid : {"uni", "geo"},
-                 hz : {"num", "fb"}, seed : {Seed}, cons : {<<"k1", "k3", "k4">>, <<"k7", "k5">>}, obj : {<<"o1", "o3">>, <<"o6">>}, lT : {FALSE},
+                 hz : {"num", "fb"}, seed : {Seed}, cons : {<<"k1", "k3", "k4">>, <<"k7", "k5">>, <<"kW", "kX">>}, obj : {<<"o1", "o3">>, <<"o6">>}, lT : {FALSE},
                  gs : {"none", "mix", "twice"}, scl : {"s1", "s2"}, when : {"before"}] :
               /\ (s.meth = "DC" <=> s.intg = "radau2") /\ (s.rhs = "R6" => s.meth = "DC")}
     [] Family = "C11" ->
@@ -354,7 +354,7 @@ Space ==
     [] Family = "C04" ->
          {s \in [rhs : {"R2", "R3", "RB", "R4"}, meth : {"MS", "SS", "DC"}, intg : {"rk", "radau2"}, N : 1..MaxN, M : 1..MaxM,
                  grid : {"uni", "fun"}, hz : {"num", "fT"},
-                 seed : {Seed}, cons : ConSets \cup {<<"k8", "kR">>, <<"k7", "kS", "k2">>, <<"kV">>, <<"kV", "k6">>, <<"kM", "k1">>, <<"kMp">>}, obj : {<<>>}] :
+                 seed : {Seed}, cons : ConSets \cup {<<"k8", "kR">>, <<"k7", "kS", "k2">>, <<"kV">>, <<"kV", "k6">>, <<"kM", "k1">>, <<"kMp">>, <<"kW", "kX">>}, obj : {<<>>}] :
               /\ Wellformed(s) /\ (s.meth = "DC" <=> s.intg = "radau2")
               /\ (s.rhs = "RB" <=> s.cons = <<"kM", "k1">>) /\ (s.rhs = "R4" <=> s.cons = <<"kMp">>)
               /\ (s.meth # "DC" => \A i \in 1..Len(s.cons) : s.cons[i] \notin {"kR", "kS"})}
